@@ -20,7 +20,7 @@ package utils
 //@ func (*ExponentialBackoff).Try
 //@   funcspec fn preserves eb.currentAttempt
 //@   requires eb.currentAttempt == 0 && fn != nil
-//@   modifies eb.currentAttempt, anyold
+//@   modifies eb.currentAttempt, anyold, ghost(calls_fn)
 //@   ensures  eb.currentAttempt == 0
 //@   ensures  limit >= 0 ==> ghost(calls_fn) - old(ghost(calls_fn)) <= limit + 1
 //@   ensures  ghost(calls_fn) - old(ghost(calls_fn)) >= 1
